@@ -1,13 +1,18 @@
 SPECIFICATION Spec
 CONSTANTS MaxN = 3
-  LenProfiles <- LensThorough
+  DataProfiles <- DataThorough
   Forms <- FormsThorough
-  StopKinds = {"close", "abandon"}
+  StopKinds = {"close", "abandon", "keep"}
   Scenarios <- ScenAll
   Reruns = {FALSE, TRUE}
   RerunScenarios <- ScenRerunThorough
-  RerunLens <- LensRerunThorough
+  RerunData <- DataRerunThorough
   RerunForms <- FormsAll
+  Holds = {TRUE}
+  HoldScenarios <- ScenHoldThorough
+  HoldData <- DataHoldThorough
+  HoldForms <- FormsHoldThorough
+  HoldRc = {FALSE, TRUE}
   KeepHistory = FALSE
   Design = "allowed"
 VIEW view
@@ -22,4 +27,5 @@ INVARIANT FirstRunWhenNothingLoadable
 PROPERTY CompleteIsComplete
 PROPERTY DropRestores
 PROPERTY InterruptKeepsLoaded
+PROPERTY ReleaseNeverFills
 CHECK_DEADLOCK FALSE
